@@ -458,8 +458,8 @@ def fails(outcome, want):
     return outcome[0] != 'v' or not same_value(outcome[1], want)
 
 
-def culprit(tree, env):
-    """smallest subtree whose own minimal or fully parenthesised text already goes wrong"""
+def culprit(tree, env, styles=('min', 'full')):
+    """smallest subtree whose own text (in one of the given renderings) already goes wrong"""
     cr = ctx_route()
     for sub in sorted(subtrees(tree), key=size):
         try:
@@ -468,11 +468,42 @@ def culprit(tree, env):
             continue
         if want is ref.UNSPEC:
             continue
-        for style in ('min', 'full'):
+        for style in styles:
             got = cr.run(formula(sub, style), env)
             if fails(got, want):
                 return sub, style, got, want
     return None
+
+
+def relevant_children(sub, env, styles):
+    """operator children of the failing subtree that matter: replaced by a plain cell holding the
+    child's value the failure disappears"""
+    cr = ctx_route()
+    out = []
+    kids = children(sub)
+    for idx, c in enumerate(kids):
+        if not (is_op(c) or c[0] == 'fn'):
+            continue
+        v = tree_value(c, env)
+        if v is ref.UNSPEC:
+            out.append(c)
+            continue
+        env2 = dict(env, Z9=float(v) if isinstance(v, ref.Inexact) else v)
+        new_kids = kids[:idx] + [cell('Z9')] + kids[idx + 1:]
+        if sub[0] == 'bin':
+            sub2 = ['bin', sub[1]] + new_kids
+        elif sub[0] == 'fn':
+            sub2 = ['fn', sub[1], new_kids]
+        else:
+            sub2 = [sub[0]] + new_kids
+        try:
+            want2 = tree_value(sub2, env2)
+        except Dropped:
+            out.append(c)
+            continue
+        if want2 is ref.UNSPEC or not any(fails(cr.run(formula(sub2, st), env2), want2) for st in styles):
+            out.append(c)
+    return out
 
 
 def text_classes(s):
@@ -484,26 +515,31 @@ def text_classes(s):
     return out
 
 
-def classify(tree, env, failure):
+def classify(tree, env, failure, style='min'):
     """mechanism key from the smallest failing subtree (a predicate over tree shapes, not values)"""
-    kind = {'c': 'does-not-compile', 'x': 'raises', 'v': 'wrong-value'}[failure[0]]
+    styles, where = ('min', 'full'), ''
     found = culprit(tree, env)
+    if found is None and style not in styles:
+        # only a varied rendering (blanks, line feeds, leaf parentheses, name case) goes wrong
+        styles, where = (style,), f'only-in-rendering:{style}:'
+        found = culprit(tree, env, styles)
     if found is None:
+        kind = {'c': 'does-not-compile', 'x': 'raises', 'v': 'wrong-value'}[failure[0]]
         return f'{kind}/only-in-context:{opclass(tree)}'
-    sub, style, got, want = found
+    sub, _, got, want = found
     kind = {'c': 'does-not-compile', 'x': 'raises', 'v': 'wrong-value'}[got[0]]
     k = sub[0]
     if k == 'str':
         cls = text_classes(sub[1])
-        return 'text-literal/' + ('+'.join(cls) if cls else f'other-{kind}')
+        return 'text-literal/' + where + ('+'.join(cls) if cls else f'other-{kind}')
     if k == 'num':
-        return f'number-literal/{number_form(sub[1])}-{kind}'
+        return f'number-literal/{where}{number_form(sub[1])}-{kind}'
     if k in ('bool', 'err', 'ref'):
-        return f'{ {"bool": "logical", "err": "error", "ref": "reference"}[k] }-literal/{kind}'
-    if k == 'bin' and sub[1] == '^' and sub[2][0] == 'neg' and got[0] == 'v':
+        return f'{ {"bool": "logical", "err": "error", "ref": "reference"}[k] }-literal/{where}{kind}'
+    if k == 'bin' and sub[1] == '^' and sub[2][0] == 'neg' and got[0] == 'v' and not where:
         return 'unary-minus-under-power'
-    under = sorted({opclass(c) for c in children(sub) if is_op(c) or c[0] == 'fn'})
-    return f'{kind}/{opclass(sub)}' + (f'-over-{"+".join(under)}' if under else '')
+    under = sorted({opclass(c) for c in relevant_children(sub, env, styles)})
+    return f'{kind}/{where}{opclass(sub)}' + (f'-over-{"+".join(under)}' if under else '')
 
 
 def number_form(text):
@@ -557,7 +593,7 @@ def judge_tree(ctx, tree, env, styles, workbook=False, sampled=False, part='tree
     if determinate:
         for style, route, text, got in seen:
             if fails(got, want):
-                key = classify(tree, env, got)
+                key = classify(tree, env, got, style)
                 if route == 'wb' and not any(fails(g, want) for _, r, _, g in seen if r == 'ctx'):
                     key += '/workbook-route-only'
                 ctx.violation(key, f'{text!r} [{style}, {route}] -> '
